@@ -106,6 +106,9 @@ var contexts = []context{
 	{"embedded-pointer-leaf-address-var", true, "leaffield", `a, b := new_{T}(1), new_{T}(2); pe := &EP_{T}{{T}: &a}; pl := &pe{LF}; pe.{T} = &b; *pl = {LFV}; return d_{T}(a) + "|" + d_{T}(b)`},
 	{"embedded-pointer-method-value", true, "struct", `a, b := new_{T}(1), new_{T}(2); e := EP_{T}{{T}: &a}; f := e.setp; g := e.setv; e.{T} = &b; f({K}); r := g({K1}); return r + "|" + d_{T}(a) + "|" + d_{T}(b)`},
 	{"embedded-pointer-copy", false, "struct", `a := new_{T}(1); e := EP_{T}{{T}: &a}; e2 := e; c := *e2.{T}; mut_{T}(e.{T}, {K}); return d_{T}(a) + "|" + d_{T}(*e2.{T}) + "|" + d_{T}(c)`},
+	{"composite-positional", false, "", `a := new_{T}(1); w := W_{T}{3, a}; pw := &W_{T}{4, a}; mut_{T}(&a, {K}); mut_{T}(&w.f, {K1}); return d_{T}(a) + "|" + d_{T}(w.f) + "|" + d_{T}(pw.f)`},
+	{"composite-positional-embedded", false, "struct", `a := new_{T}(1); e := E_{T}{a, 5}; arr := [2]{T}{a, a}; mut_{T}(&a, {K}); mut_{T}(&arr[1], {K1}); return d_{T}(a) + "|" + d_{T}(e.{T}) + "|" + d_{T}(arr[0]) + d_{T}(arr[1])`},
+	{"elem-pointer-of-subslice", true, "", `base := []int{10, 20, 30, 40, 50}; sub := base[2:]; p := &sub[1]; *p = 41; q := &base[1:][1:][0]; *q += 5; names := []string{"a", "b", "c", "d"}; ps := &names[1:3][1]; *ps = "C"; type num int8; ns := []num{1, 2, 3, 4}; pn := &ns[2:][1]; *pn = 44; return itoa(base[0]) + "," + itoa(base[1]) + "," + itoa(base[2]) + "," + itoa(base[3]) + "," + itoa(base[4]) + " " + names[0] + names[1] + names[2] + names[3] + " " + itoa(int(ns[3])) + btoa(p == &base[3]) + btoa(pn == &ns[3]) + d_{T}(new_{T}(1))`},
 	{"inner-copy", false, "inner", `a := new_{T}(1); in := a{IN}; mut_{T}(&a, {K}); a2 := a; a2{IN} = in; return d_{INT}(in) + "|" + d_{T}(a) + "|" + d_{T}(a2)`},
 	{"inner-pointer", true, "inner", `a := new_{T}(1); pin := &a{IN}; b := a; mut_{T}(&a, {K}); mut_{INT}(pin, 0); return d_{INT}(*pin) + "|" + d_{T}(a) + "|" + d_{T}(b) + btoa(pin == &a{IN})`},
 	{"pointer-alias", true, "", `a := new_{T}(1); p := &a; q := p; mut_{T}(p, {K}); mut_{T}(q, {K1}); return d_{T}(a) + btoa(p == q) + btoa(p == &a)`},
